@@ -16,6 +16,7 @@ class AnalysisError(Exception):
 
 
 REPO = os.environ.get("SV_REPO", "/repo")
+_BASELINE = None
 PKG = "dvc_data"
 
 
@@ -235,8 +236,20 @@ class Program:
             tree = ast.parse(src, filename=path)
         except (OSError, SyntaxError) as exc:
             raise AnalysisError(f"cannot parse {path}: {exc}") from exc
+        inlined: List[str] = []
+        if not trusted and not os.environ.get("SV_NO_INLINE"):
+            from .inline import inline_unknown_helpers, load_baseline
+
+            global _BASELINE
+            if _BASELINE is None:
+                _BASELINE = load_baseline()
+            try:
+                inlined = inline_unknown_helpers(tree, modname, _BASELINE)
+            except RecursionError:
+                inlined = []
         _set_parents(tree)
         mod = Module(modname, path, rel, src, tree, trusted=trusted)
+        mod.inlined = inlined  # type: ignore[attr-defined]
         mod.is_pkg = is_pkg  # type: ignore[attr-defined]
         # imports anywhere at module level (incl. under `if TYPE_CHECKING:`)
         top_nodes: List[ast.AST] = []
